@@ -335,7 +335,7 @@ class Sym:
         s.data = [SymHex('d%d' % i, w.heap_lens) for i in range(cap)]
         s.elen = [NB('ne%d' % i, 5) for i in range(cap)]
         s.ekey = [[SymLabel('e%d_%d' % (i, j)) for j in range(N)] for i in range(cap)]
-        s.etgt = [[B('t%d_%d' % (i, j), 64) for j in range(N)] for i in range(cap)]
+        s.etgt = [[(z3.BitVecVal(fixed['t%d_%d' % (i, j)], 64) if 't%d_%d' % (i, j) in fixed else B('t%d_%d' % (i, j), 64)) for j in range(N)] for i in range(cap)]
         s.cnt = [U(1) if b < 2 else NB('cnt%d' % b, 5) for b in range(NSLOT)]       # cnt < 32; I6 says <= 16
         ib = cap.bit_length() + 1      # stale members are arbitrary but small: enough to be out of range
         s.item = [[(U(0) if k == 0 else None) if b < 2 else NB('m%d_%d' % (b, k), ib) for k in range(NSLOT)] for b in range(NSLOT)]
